@@ -240,6 +240,22 @@ fn main() {
             let n: u64 = args.get(3).and_then(|s| s.parse().ok()).unwrap_or(1);
             threads::miri_c16(seed, n);
         }
+        "stress-c16" => {
+            exec::install_panic_hook();
+            let seed: u64 = arg_after(&args, "--seed").and_then(|s| s.parse().ok()).unwrap_or(1);
+            let from: u64 = arg_after(&args, "--from").and_then(|s| s.parse().ok()).unwrap_or(0);
+            let to: u64 = arg_after(&args, "--to").and_then(|s| s.parse().ok()).unwrap_or(10);
+            let threads: usize = arg_after(&args, "--threads").and_then(|s| s.parse().ok()).unwrap_or(8);
+            let iters: usize = arg_after(&args, "--iters").and_then(|s| s.parse().ok()).unwrap_or(300);
+            let ctx = props::Ctx::new(seed, Tier::Quick);
+            for i in from..to {
+                if let Some(m) = threads::stress_c16(&ctx, i, threads, iters) {
+                    println!("STRESS-VIOLATION {}", m);
+                    std::process::exit(1);
+                }
+            }
+            println!("stress-c16 ok runs={}..{} threads={} iters={}", from, to, threads, iters);
+        }
         "c16-digest" => {
             // print "<run> <digest>" for runs [from, to): load + full observation + extreme ops.
             exec::install_panic_hook();
